@@ -154,9 +154,10 @@ Definition eig_post (n_eigs : option Z) (vals : list cplx) (vecs : list (list cp
 Definition sq_ok (T : Builders.mat) (p : list Q) : bool :=
   Builders.is_square T && Nat.eqb (length p) (length T).
 
-(* T_op.rmatvec(p) = p . T *)
+(* T_op.rmatvec(p) = p . T   (each entry kept in lowest terms: values are unchanged, the
+   representation stays small over many steps) *)
 Definition step (T : Builders.mat) (p : list Q) : list Q :=
-  map (Builders.vecmat p T) (seq 0 (length T)).
+  map (fun j => Qred (Builders.vecmat p T j)) (seq 0 (length T)).
 
 Fixpoint iterate (T : Builders.mat) (p : list Q) (n : nat) : list Q :=
   match n with
